@@ -121,7 +121,7 @@ def row_of(short):
 REGS = {
     'tolerance': (1, 'count', 200), 'pretolerance': (2, 'count', 100), 'hbadness': (3, 'count', 1000), 'linepenalty': (4, 'count', 1000),
     'parindent': (5, 'dimen', 20 * 65536), 'tabcolsep': (6, 'dimen', 0), 'topsep': (7, 'dimen', 0), 'hsize': (8, 'dimen', None),
-    'parskip': (9, 'glue', 0),
+    'parskip': (9, 'glue', 0), 'baselineskip': (10, 'glue', 12 * 65536),
 }
 REG_ROW = {'count': 'ParameterCommand.value', 'dimen': 'DimenCommand.value', 'glue': 'GlueCommand.value'}
 ARTICLE_PATCH = [('theindex.counter', 1), ('theindex.level', 1), ('printindex.counter', 1), ('printindex.level', 1),
@@ -217,6 +217,15 @@ def tex_atom(a, inmath=False):
         kind = REGS[a['reg']][1]
         # \relax: a register that follows a number would be multiplied into it (C05's known finding int:register-after-decimal)
         return '\\%s=%d%s\\relax ' % (a['reg'], a['v'], '' if kind == 'count' else 'pt')
+    if k == 'paramreg':
+        # a glue register given by another register, optionally signed: \parskip=-\baselineskip
+        return '\\%s=%s\\%s\\relax ' % (a['reg'], a.get('sign', ''), a['src'])
+    if k == 'labelled':
+        n = a['n']
+        return {'section': '\\section{The %s section}\\label{s%d} text see \\ref{s%d} ' % (a.get('w', 'first'), n, n),
+                'equation': '\\begin{equation}x=y\\label{e%d}\\end{equation} see \\ref{e%d} ' % (n, n),
+                'item': '\\begin{enumerate}\\item\\label{i%d} one \\item two\\end{enumerate} see \\ref{i%d} ' % (n, n),
+                'figure': '\\begin{figure}body\\caption{Cap %s}\\label{f%d}\\end{figure} see \\ref{f%d} ' % (a.get('w', 'x'), n, n)}[a['what']]
     if k == 'setlen':
         return '\\setlength{\\%s}{%dpt}' % (a['reg'], a['v'])
     if k == 'readcount':
@@ -296,13 +305,29 @@ def T_cell(c):
     return c
 
 
-def tok_atoms(atoms, out, reads):
+def tok_atoms(atoms, out, reads, cur=None, inbox=False):
+    """cur: the values the document's registers have at this point (a register given by another register takes the value the
+    source has now); inbox: inside the argument of a box, where parameters are disabled and assignments are not executed"""
+    if cur is None:
+        cur = {r: REGS[r][2] for r in REGS}
     for a in atoms:
         k = a['a']
         if k == 'text':
             out.append(0)
         elif k == 'param':
             out.append([9, reg_cell(a['reg']), val_code(a['reg'], a['v'])])
+            if not inbox:
+                cur[a['reg']] = val_code(a['reg'], a['v'])
+        elif k == 'paramreg':
+            v = (cur.get(a['src']) or 0) * (-1 if a.get('sign') == '-' else 1)
+            out.append([9, reg_cell(a['reg']), v])
+            if not inbox:
+                cur[a['reg']] = v
+        elif k == 'labelled':
+            if a['what'] == 'item':
+                out += [4, 6, [8, 1], 6, 5, [8, 1]]
+            else:
+                out += [[8, 3], [8, 1], [8, 1]]
         elif k == 'setlen':
             # \setlength only parses its two arguments in plasTeX (its invoke is commented out in Base/LaTeX/Lengths.py):
             # DimenCommand.setlength is reached through the Python API only, so no cell is written here
@@ -314,7 +339,7 @@ def tok_atoms(atoms, out, reads):
         elif k == 'list':
             out += [4, 6]
             reads.append(('weak', 'List.depth'))
-            tok_atoms(a['body'], out, reads)
+            tok_atoms(a['body'], out, reads, cur, inbox)
             if a['closed']:
                 out.append(5)
         elif k == 'math':
@@ -324,7 +349,7 @@ def tok_atoms(atoms, out, reads):
                     out.append(0)
                 else:
                     out.append(2)
-                    tok_atoms(m['body'], out, reads)
+                    tok_atoms(m['body'], out, reads, cur, True)
                     if m['closed']:
                         out.append(3)
             if a['closed']:
@@ -437,7 +462,7 @@ def used_cells(case):
 
     def walk(atoms):
         for a in atoms:
-            if a['a'] in ('param', 'setlen', 'readcount', 'readdim'):
+            if a['a'] in ('param', 'setlen', 'readcount', 'readdim', 'paramreg'):
                 regs.add(a['reg'])
             if a['a'] == 'list':
                 walk(a['body'])
@@ -503,7 +528,7 @@ def rand_atom(rng, depth, feats, open_ok=False):
     if f == 'math' and depth > 0:
         body = [dict(m='sym', w=rng.choice('xyz'))]
         if rng.random() < 0.4:
-            inner = [x for x in feats if x not in ('section', 'tabular', 'verse', 'printindex', 'env')]
+            inner = [x for x in feats if x not in ('section', 'tabular', 'verse', 'printindex', 'env', 'labelled')]
             body.append(dict(m='box', body=rand_atoms(rng, depth - 1, inner, rng.randint(1, 2)), closed=True))
             if rng.random() < 0.5:
                 body.append(dict(m='sym', w='w'))
@@ -518,6 +543,11 @@ def rand_atom(rng, depth, feats, open_ok=False):
         return dict(a='index', w=rng.choice(WORDS))
     if f == 'tabular':
         return dict(a='tabular', spec=rng.choice(['lc', 'rl', 'Zl', 'cZ', '|l|Z|', 'lY']))
+    if f == 'paramreg':
+        reg, src = rng.choice([('parskip', 'baselineskip'), ('baselineskip', 'parskip'), ('parskip', 'baselineskip')])
+        return dict(a='paramreg', reg=reg, src=src, sign=rng.choice(['', '-']))
+    if f == 'labelled':
+        return dict(a='labelled', what=rng.choice(['section', 'equation', 'item', 'figure']), n=rng.randint(0, 10 ** 6), w=rng.choice(WORDS))
     if f == 'env':
         return dict(a='env', e=rng.choice(sorted(ENVS)), n=rng.randint(0, 10 ** 6))
     if f == 'openout':
@@ -547,7 +577,7 @@ def open_tail(rng, depth=2):
     return [dict(a='list', kind='itemize', body=[dict(a='text', w='o'), dict(a='math', disp=False, body=[dict(m='sym')], closed=False)], closed=False)]
 
 
-BASE_FEATS = ['env', 'env', 'env', 'text', 'text', 'param', 'setlen', 'read', 'read', 'list', 'list', 'math', 'math', 'macro', 'section', 'index', 'tabular',
+BASE_FEATS = ['paramreg', 'labelled', 'env', 'env', 'env', 'text', 'text', 'param', 'setlen', 'read', 'read', 'list', 'list', 'math', 'math', 'macro', 'section', 'index', 'tabular',
               'openout', 'newif', 'newcount', 'ref']
 
 
@@ -625,6 +655,20 @@ def hand_cases():
                 D('report', [dict(a='tabular', spec='|l|Z|')], pkgs=['vfcoltypezw'])))
     out.append(('coltype-other-letter-in-B', [D('report', [dict(a='tabular', spec='lZ')], pkgs=['vfcoltype'])],
                 D('report', [dict(a='tabular', spec='lY')], pkgs=['vfcoltypey'])))
+    preg = lambda r, sr, sg='': dict(a='paramreg', reg=r, src=sr, sign=sg)   # noqa
+    lab = lambda what, n, w='first': dict(a='labelled', what=what, n=n, w=w)   # noqa
+    out.append(('glue-from-register', [D('report', [preg('parskip', 'baselineskip'), txt('a'), preg('parskip', 'baselineskip', '-')])],
+                D('report', [dict(a='param', reg='tolerance', v=7), rd('tolerance'), rd('parskip')])))
+    out.append(('glue-from-register-2', [D('book', [preg('baselineskip', 'parskip'), lst([txt('a')])])], B_regs))
+    out.append(('upfront-glue-from-register', [D('report', [preg('parskip', 'baselineskip', '-'), txt('a')])],
+                D('report', [dict(a='param', reg='tolerance', v=7), rd('tolerance')]), dict(schedule='upfront')))
+    out.append(('upfront-closed', [D('report', [lst([txt('a')]), mth([sym]), dict(a='param', reg='hbadness', v=3)])], B_lists, dict(schedule='upfront')))
+    out.append(('upfront-open-list', [D('report', [lst([txt('a')], closed=False)], end=False)], B_lists, dict(schedule='upfront')))
+    out.append(('upfront-open-math', [D('report', [mth([sym], closed=False)], end=False)], B_lists, dict(schedule='upfront')))
+    out.append(('rendered-labels-1', [D('report', [lab('section', 1, 'first'), lab('figure', 2, 'one')])],
+                D('report', [lab('equation', 3), lab('item', 4)]), dict(render=True)))
+    out.append(('rendered-labels-2', [D('article', [lab('figure', 1, 'one'), lab('section', 2, 'second')]), D('book', [lab('item', 5)])],
+                D('book', [lab('item', 3), lab('equation', 4), lab('section', 6, 'own')]), dict(render=True)))
     out.append(('natbib-citealias', [D('report', [dict(a='citealias', k='k'), txt('x')], pkgs=['natbib'])],
                 D('report', [dict(a='raw', s='\\citetalias{k} '), txt('y')], pkgs=['natbib'])))
     out.append(('newif-newcount', [D('report', [dict(a='newif'), dict(a='newcount', v=4)])], D('report', [dict(a='newif'), dict(a='newcount', v=6)])))
@@ -675,8 +719,9 @@ def small_pool():
 
 def streams(rng, tier, boost):
     out = []
-    for name, As, B in hand_cases():
-        out.append(('hand', dict(kind='seq', name=name, docs=As, B=B)))
+    for h in hand_cases():
+        name, As, B = h[:3]
+        out.append(('hand', dict(dict(kind='seq', name=name, docs=As, B=B), **(h[3] if len(h) > 3 else {}))))
     for name, As, B in beamer_cases():
         out.append(('beamer', dict(kind='seq', name=name, docs=As, B=B)))
     pool = small_pool()
@@ -686,7 +731,7 @@ def streams(rng, tier, boost):
         pairs = pairs[:120]
     for i, j in pairs:
         out.append(('exhaustive-pairs', dict(kind='seq', name='pair-%d-%d' % (i, j), docs=[pool[i]], B=pool[j])))
-    n = (300 if tier == 'quick' else 4000) * boost
+    n = (260 if tier == 'quick' else 4000) * boost
     for i in range(n):
         k = rng.choice([1, 1, 2, 2, 3, 4])
         As = [rand_doc(rng) for _ in range(k)]
@@ -702,8 +747,19 @@ def streams(rng, tier, boost):
         A = rand_doc(rng)
         A['body'].insert(rng.randint(0, len(A['body'])), dict(a='raw', s=junk))
         out.append(('malformed', dict(kind='seq', name='malformed', docs=[A], B=rand_doc(rng, allow_open=False), malformed=True)))
+    # documents constructed up front (TeXDocument and TeX objects of all documents exist before the first is processed)
+    for i in range((30 if tier == 'quick' else 400) * boost):
+        k = rng.choice([1, 1, 2, 3])
+        out.append(('upfront', dict(kind='seq', name='upfront', schedule='upfront', docs=[rand_doc(rng, allow_open=rng.random() < 0.5) for _ in range(k)],
+                                    B=rand_doc(rng, allow_open=False))))
+    # rendered runs: HTML5 files and the cross-reference data (.paux) written for B
+    lab_feats = ['labelled', 'labelled', 'labelled', 'text', 'env', 'param', 'read', 'list', 'math', 'index', 'tabular']
+    for i in range((16 if tier == 'quick' else 240) * boost):
+        def rdoc():
+            return dict(cls=rng.choice(['article', 'book', 'report', 'report']), pkgs=[], body=rand_atoms(rng, 1, lab_feats, rng.randint(2, 5)), end=True)
+        out.append(('rendered', dict(kind='seq', name='rendered', render=True, docs=[rdoc() for _ in range(rng.choice([1, 1, 2]))], B=rdoc())))
     if tier == 'thorough':
-        for name, As, B in hand_cases()[:8]:
+        for name, As, B in [h[:3] for h in hand_cases()[:8]]:
             out.append(('exec-crosscheck', dict(kind='seq', name=name, docs=As, B=B, exec_alone=True)))
         for i in range(40):
             out.append(('exec-crosscheck', dict(kind='seq', name='rnd', docs=[rand_doc(rng)], B=rand_doc(rng, allow_open=False), exec_alone=True)))
@@ -716,7 +772,12 @@ def search_streams(rng, tier):
 
 
 def describe(case):
-    return dict(name=case.get('name'), sequence=[source(d) for d in case['docs']], B=source(case['B']))
+    d = dict(name=case.get('name'), sequence=[source(d) for d in case['docs']], B=source(case['B']))
+    if case.get('schedule'):
+        d['schedule'] = 'all TeXDocument/TeX objects are constructed before the first document is processed'
+    if case.get('render'):
+        d['render'] = 'every document is rendered with HTML5 in its own directory; B is compared by tree, HTML files and .paux'
+    return d
 
 
 # ---------------------------------------------------------------------------------------------------------------------
@@ -776,8 +837,17 @@ def sweep():
         if mname.startswith('plasTeX.Renderers.PageTemplate.simpletal'):
             continue
 
+        def defaults(f, name):
+            f = getattr(f, '__func__', f)
+            if isinstance(f, types.FunctionType):
+                dv = list(f.__defaults__ or ()) + list((f.__kwdefaults__ or {}).values())
+                mut = [x for x in dv if isinstance(x, (list, dict, set))]
+                if mut:
+                    snap[name + '.<defaults>'] = _rep(mut)
+
         def klass(c, q):
             for ak, av in list(vars(c).items()):
+                defaults(av, '%s:%s.%s' % (mname, q, ak))
                 if ak.startswith('__') and ak.endswith('__'):
                     continue
                 if isinstance(av, type) and av.__qualname__.startswith(c.__qualname__ + '.'):
@@ -787,6 +857,8 @@ def sweep():
         for k, v in list(vars(mod).items()):
             if k.startswith('__'):
                 continue
+            if isinstance(v, types.FunctionType) and v.__module__ == mname:
+                defaults(v, '%s:%s' % (mname, k))
             if isinstance(v, type):
                 if v.__module__ == mname and v.__qualname__ == k:
                     klass(v, k)
@@ -834,14 +906,23 @@ def canon_xml(x):
     return re.sub(r'\ba\d{10}\b', sub, x)
 
 
-def process_one(doc, pkgdir):
-    """-> (status, xml or message, TeXDocument)"""
+def build_objects(doc, pkgdir):
     from plasTeX.TeX import TeX, TeXDocument
-    src = source(doc)
     d = TeXDocument()
     d.config['general']['packages-dirs'] = [pkgdir]
     d.userdata['working-dir'] = pkgdir
-    tex = TeX(d)
+    return d, TeX(d)
+
+
+_RENDER_N = [0]
+
+
+def process_one(doc, pkgdir, prebuilt=None, render=False):
+    """-> (status, observation of the result or message, TeXDocument)"""
+    if render:
+        return process_rendered(doc, pkgdir)
+    src = source(doc)
+    d, tex = prebuilt or build_objects(doc, pkgdir)
     tex.input(src)
     try:
         tex.parse()
@@ -851,6 +932,59 @@ def process_one(doc, pkgdir):
         return 'ok', canon_xml(d.toXML()), d
     except Exception as e:
         return 'xmlraise', '%s: %s' % (type(e).__name__, str(e)[:120]), d
+
+
+def process_rendered(doc, pkgdir):
+    """parse and render with HTML5 in a directory of its own; the result = tree + HTML files + the .paux the run writes"""
+    import pickle
+    import shutil
+    from plasTeX import TeXDocument
+    from plasTeX.TeX import TeX
+    from plasTeX.Config import defaultConfig
+    from plasTeX.Renderers.HTML5 import Renderer
+    from plasTeX.Renderers.HTML5.Config import addConfig
+    _RENDER_N[0] += 1
+    out = os.path.join(VERIF, 'build', 'C17', 'render', '%d-%d' % (os.getpid(), _RENDER_N[0]))
+    shutil.rmtree(out, ignore_errors=True)
+    os.makedirs(out)
+    cwd = os.getcwd()
+    config = defaultConfig()
+    addConfig(config)
+    config['images']['imager'] = 'none'
+    config['images']['vector-imager'] = 'none'
+    config['files']['log'] = False
+    config['general']['copy-theme-extras'] = False
+    config['general']['packages-dirs'] = [pkgdir]
+    d = TeXDocument(config=config)
+    d.userdata['jobname'] = 'job'
+    d.userdata['working-dir'] = out
+    tex = TeX(d)
+    tex.input(source(doc))
+    os.chdir(out)
+    try:
+        try:
+            tex.parse()
+            xml = canon_xml(d.toXML())
+            Renderer().render(d)
+        except Exception as e:
+            return 'raise', '%s: %s' % (type(e).__name__, str(e)[:120]), d
+        os.chdir(out)
+        lines = [xml, '--- cross-reference data written by the run (job.paux)']
+        if os.path.exists('job.paux'):
+            with open('job.paux', 'rb') as fh:
+                data = pickle.load(fh)
+            lines.append(canon_xml(json.dumps(data, sort_keys=True, default=repr, indent=0)))
+        else:
+            lines.append('<no .paux>')
+        lines.append('--- files')
+        for f in sorted(os.listdir('.')):
+            if f.endswith('.html'):
+                body = canon_xml(open(f, encoding='utf8', errors='replace').read())
+                lines.append('%s %s' % (canon_xml(f), hashlib.sha256(body.encode()).hexdigest()[:16]))
+        return 'ok', '\n'.join(lines), d
+    finally:
+        os.chdir(cwd)
+        shutil.rmtree(out, ignore_errors=True)
 
 
 def fresh_view():
@@ -914,6 +1048,8 @@ def baseline_for(case, pkgdir):
 def child_sequence(case, pkgdir, baseline=None):
     names, regs = used_cells(case)
     out = dict(raw=[], status=[], leaks=[], unlisted=[])
+    upfront = case.get('schedule') == 'upfront'
+    render = bool(case.get('render'))
     s_init = fresh_view()
     for k, v in (baseline or {}).items():
         s_init.setdefault(k, v)
@@ -922,29 +1058,33 @@ def child_sequence(case, pkgdir, baseline=None):
     probe = TeXDocument()
     out['raw0'] = dict(tracker_raw(), **reg_raw(probe, regs))
     docs = case['docs'] + [case['B']]
+    built = [build_objects(d, pkgdir) for d in docs] if upfront else [None] * len(docs)
+
+    def view():
+        # normal schedule: the interpreter as the next document sees it (its TeXDocument is created first);
+        # documents constructed up front: nothing is created between two documents
+        return sweep() if upfront else fresh_view()
     bxml = None
     for i, d in enumerate(docs):
-        st, x, td = process_one(d, pkgdir)
+        st, x, td = process_one(d, pkgdir, prebuilt=built[i], render=render)
         out['status'].append(st if st == 'ok' else '%s %s' % (st, x))
         out['raw'].append(dict(tracker_raw(), **reg_raw(td, regs)))
         if i == len(docs) - 1:
             bxml = x if st == 'ok' else None
-        if i == len(docs) - 2 or (len(docs) == 1):
-            pass
         if i == len(docs) - 2:
-            # the interpreter as B is going to see it
-            out['leaks'], out['unlisted'] = diff_cells(s_init, fresh_view(), mods_init)
+            out['leaks'], out['unlisted'] = diff_cells(s_init, view(), mods_init, skip_trackers=upfront)
     # after B as well (processing B is processing a document)
-    out['leaks_after_B'], out['unlisted_after_B'] = diff_cells(s_init, fresh_view(), mods_init)
+    last = view()
+    out['leaks_after_B'], out['unlisted_after_B'] = diff_cells(s_init, last, mods_init, skip_trackers=upfront)
     out['bxml'] = bxml
-    out['memo'] = memo_view()
+    out['memo'] = memo_view(last)
     return out
 
 
 IGNORED_ATTRS = ('@arguments', '@locals')
 
 
-def diff_cells(s0, s1, mods_init):
+def diff_cells(s0, s1, mods_init, skip_trackers=False):
     listed = {}
     for c in load_cells()['cells']:
         listed[c['name']] = c
@@ -968,9 +1108,15 @@ def diff_cells(s0, s1, mods_init):
         c = listed.get(k)
         if c is None and attr in fam_attrs:
             c = fam_attrs[attr][0]
+        if c is None and attr == '_mixed_':
+            # the bookkeeping dictionary of Renderers.mixin / unmix (row mixin-base.*): renderer phase.  unmix(base, mix) takes the
+            # mixed-in attributes away again but leaves their entries in base._mixed_ (observation, no effect on a later run)
+            c = next((x for x in load_cells()['cells'] if x['name'].startswith('mixin-base')), None)
         short = short_of(k)
         if c is not None and c['iso'] in ('env', 'render'):
             continue
+        if skip_trackers and short in TRACKERS:
+            continue        # judged through the raw values (no new document is created between two documents of this schedule)
         item = '%s (%s -> %s)' % (short, (s0.get(k) or 'absent')[:40], (s1.get(k) or 'absent')[:40])
         if c is None:
             unlisted.append(item)
@@ -978,10 +1124,10 @@ def diff_cells(s0, s1, mods_init):
     return leaks, unlisted
 
 
-def memo_view():
+def memo_view(snap=None):
     """the per-class caches (@locals, @arguments) as OWNED by each class (vars(cls), never inherited): key -> digest"""
     out = {}
-    for k, v in sweep().items():
+    for k, v in (snap if snap is not None else sweep()).items():
         attr = k.rsplit('.', 1)[1] if '.' in k.split(':', 1)[1] else ''
         if attr in IGNORED_ATTRS:
             out[k] = hashlib.sha256(v.encode()).hexdigest()[:12]
@@ -989,7 +1135,7 @@ def memo_view():
 
 
 def child_alone(case, pkgdir):
-    st, x, td = process_one(case['B'], pkgdir)
+    st, x, td = process_one(case['B'], pkgdir, render=bool(case.get('render')))
     return dict(status=st if st == 'ok' else '%s %s' % (st, x), bxml=x if st == 'ok' else None, memo=memo_view())
 
 
@@ -1201,6 +1347,18 @@ def property_verdict(case, io, mo):
                                                                                  dict(after=status[nA:], alone=alone.get('status'))))
     if unknown:
         return dict(violation=True, key=unknown[0], expected='no cell differs; B identical', what=' ; '.join(what))
+    # the trackers right after every completed document, before anything new is created
+    raw_items = raw_differences(case, io, mo)
+    raw_unknown = [x for x in raw_items if x[1] not in known]
+    if raw_unknown:
+        i, k, txt_ = raw_unknown[0]
+        return dict(violation=True, key=k, expected='every tracker has its initial value when a document has been processed',
+                    what='; '.join(x[2] for x in raw_unknown[:4]) + (' ; ' + ' ; '.join(what) if what else ''))
+    upfront = case.get('schedule') == 'upfront'
+    if upfront and bdiff and [x for x in raw_items if x[0] < nA] and doc_uses_trackers(case['B']):
+        # documents constructed up front: B starts with the trackers an earlier document left set (the recorded finding)
+        x = [x for x in raw_items if x[0] < nA][0]
+        return dict(violation=True, key=x[1], expected='B identical', what=x[2] + ' ; ' + ' ; '.join(what))
     beamer = any(d['cls'] == 'beamer' for d in case['docs'] + [case['B']])
     if io.get('memo_diff') and status[nA:] == ['ok'] and alone.get('status') == 'ok':
         md = io['memo_diff']
@@ -1224,7 +1382,69 @@ def property_verdict(case, io, mo):
         un = [k for k in ks if k not in known]
         return dict(violation=True, key=(un or ks)[0], expected='no cell differs',
                     what='after B itself these cells differ: %s' % '; '.join(seq['leaks_after_B'][:6]))
+    if raw_items:
+        return dict(violation=True, key=raw_items[0][1], expected='every tracker has its initial value when a document has been processed',
+                    what='; '.join(x[2] for x in raw_items[:4]))
     return None
+
+
+OPEN_CELLS = ('List.depth', 'MathShift.inEnv')
+
+
+def doc_is_open(d):
+    """does the document end inside a list, a formula or a box?"""
+    def walk(atoms):
+        for a in atoms:
+            if a['a'] == 'list':
+                if not a['closed'] or walk(a['body']):
+                    return True
+            if a['a'] == 'math':
+                if not a['closed']:
+                    return True
+                for m in a['body']:
+                    if m['m'] == 'box' and (not m['closed'] or walk(m['body'])):
+                        return True
+        return False
+    return walk(d['body'])
+
+
+def doc_uses_trackers(d):
+    def walk(atoms):
+        for a in atoms:
+            if a['a'] in ('list', 'math', 'labelled', 'param', 'paramreg', 'readcount', 'readdim'):
+                return True
+            if a['a'] == 'env' and a['e'] in ('description', 'array'):
+                return True
+        return False
+    return walk(d['body'])
+
+
+def raw_differences(case, io, mo):
+    """-> [(document index, key, text)] for every tracker that differs from its initial value right after a completed document.
+    A list or formula that the input leaves open is the recorded finding (key raw-open-at-eof) only when the document really ends
+    inside it and the value is exactly what the open constructs account for (the Model's value); anything else is `C17:raw:`."""
+    seq = io['seq']
+    raw0 = seq.get('raw0') or {}
+    status = seq.get('status', [])
+    docs = case['docs'] + [case['B']]
+    upfront = case.get('schedule') == 'upfront'
+    model_ok = isinstance(mo, list) and mo[:1] == [0]
+    mraw = model_raw(case, mo) if model_ok else []
+    out = []
+    for i, r in enumerate(seq.get('raw', [])):
+        if i >= len(status) or status[i] != 'ok':
+            continue
+        for n in TRACKERS:
+            if r.get(n) == raw0.get(n):
+                continue
+            opened = case.get('malformed') or any(doc_is_open(d) for d in (docs[:i + 1] if upfront else [docs[i]]))
+            accounted = True
+            if not upfront and not case.get('malformed') and model_ok and i < len(mraw):
+                accounted = (mraw[i].get(n) == r.get(n))
+            ok = n in OPEN_CELLS and opened and accounted
+            key = ('C17:raw-open-at-eof:' if ok else 'C17:raw:') + n
+            out.append((i, key, 'right after document %d was processed %s is %s (initially %s)' % (i, n, r.get(n), raw0.get(n))))
+    return out
 
 
 def correspondence_verdict(case, io, mo):
@@ -1237,6 +1457,8 @@ def correspondence_verdict(case, io, mo):
                 return None
             return dict(violation=False, key='C17:model:raises', what='the Model says document %s raises, the implementation completed' % mo[1:])
         return dict(violation=False, key='C17:model', what='model answer %s' % (mo,))
+    if case.get('schedule') == 'upfront':
+        return None       # the Model resets at the start of every document; this schedule creates nothing between documents
     if case.get('malformed') or any(d['cls'] == 'beamer' for d in case['docs'] + [case['B']]):
         return None       # outside the transcription (the junk token is modelled as a plain character; beamer's frames are not modelled)
     if any(s != 'ok' for s in seq.get('status', [])):
